@@ -1190,6 +1190,21 @@ func (c *c15Checker) unitVaralign(rng *Rng, thorough bool) {
 		}
 	}
 	c.res.Count("paragraphs_exotic_whitespace", nx)
+	// 1d. the history of the one VaralignBlock that serves a whole file: what the paragraph before a
+	// paragraph of assignments leaves behind (skip flag, collected lines) must not reach the next one
+	nh := 0
+	for _, pre := range [][]string{{"target: source"}, {".include \"other.mk\""}, {"pre-configure:", "\t${ECHO} hello"},
+		{"# only a comment"}, {".if 1", ".endif"}, {"A=\tb"}, {"target: source", "B=  c"}, {"#COMMENTED=  x"},
+		{"\t${ECHO} shell line without target"}, {"target: source", "", "# comment"}} {
+		for _, nw := range []int{1, 8, 15} {
+			for _, b := range c15MoreBlanks {
+				c.alignFragment(append(append([]string{}, pre...), "", c15Line(nw, "=", b, 5, false, 8), c15Line(12, "+=", "  ", 5, nw == 8, 9)), "history")
+				c.alignFragment(append(append([]string{}, pre...), "", "", c15Line(nw, "=", b, 5, false, 8)), "history")
+				nh += 2
+			}
+		}
+	}
+	c.res.Count("paragraphs_after_history", nh)
 	// 2. all 2-line paragraphs over name widths x blanks x value widths x {=, +=}
 	type lk struct {
 		nw, vw int
@@ -1369,7 +1384,7 @@ func runC15(ctx *Ctx) *Result {
 		{"trim_fixed", 50}, {"dir_fixed", 100}, {"shell_fixed", 20}, {"sav_fixed", 200},
 		{"whole_files", 50}, {"whole_autofix_lines", 300}, {"whole_second_pass_checked", 20},
 		// round 4: the byte-exact blank class, the right margin, files without final newline
-		{"trim_exotic_cases", 1500}, {"align_no_final_newline", 5000}, {"paragraphs_right_margin", 2000}, {"paragraphs_exotic_whitespace", 2000},
+		{"trim_exotic_cases", 1500}, {"align_no_final_newline", 5000}, {"paragraphs_right_margin", 2000}, {"paragraphs_exotic_whitespace", 2000}, {"paragraphs_after_history", 600},
 		{"dir_exotic_cases", 100}, {"vm_compute_cross_checked", 150}, {"whole_extra_files", 50}, {"whole_extra_no_final_newline", 15}, {"whole_extra_crlf", 15}} {
 		if dist(f.key) < f.min && res.Broken == "" && len(res.Violations) == 0 {
 			res.Broken = fmt.Sprintf("coverage floor missed: %s = %d < %d", f.key, dist(f.key), f.min)
